@@ -570,6 +570,7 @@ func c05BuildDeposit(w *c05GWorld, mut func(*common.Transaction)) (*common.Signe
 		key = w.custodian.PrivateSpendKey
 	}
 	_ = signed.SignRaw(key)
+	w.soleSigShape(signed)
 	if w.r.Chance(1, 8) {
 		w.mixOrdinaryInput(signed)
 	}
@@ -686,6 +687,7 @@ func c05BuildNodeAccept(w *c05GWorld, mut func(*common.Transaction)) (*common.Si
 	}
 	sig := key.Sign(signed.AsVersioned().PayloadHash())
 	signed.SignaturesMap = []map[uint16]*crypto.Signature{{0: &sig}}
+	w.soleSigShape(signed)
 	return signed, "node-accept"
 }
 
@@ -717,6 +719,7 @@ func c05BuildNodeCancel(w *c05GWorld, mut func(*common.Transaction)) (*common.Si
 	signed := &common.SignedTransaction{Transaction: *tx}
 	sig := owner.PrivateSpendKey.Sign(signed.AsVersioned().PayloadHash())
 	signed.SignaturesMap = []map[uint16]*crypto.Signature{{0: &sig}}
+	w.soleSigShape(signed)
 	return signed, "node-cancel"
 }
 
@@ -906,6 +909,9 @@ func (w *c05GWorld) preMutation() (func(*common.Transaction), string) {
 			tx.Outputs = tx.Outputs[:1]
 		}},
 		{"multi-section-input", func(tx *common.Transaction) { w.multiSectionInput(tx) }},
+		{"extra-boundary", func(tx *common.Transaction) { w.resizeExtra(tx) }},
+		{"extra-boundary", func(tx *common.Transaction) { w.resizeExtra(tx) }},
+		{"extra-boundary", func(tx *common.Transaction) { w.resizeExtra(tx) }},
 		{"genesis-input", func(tx *common.Transaction) { Pick(r, tx.Inputs).Genesis = r.Bytes(r.Range(1, 32)) }},
 		{"input-index", func(tx *common.Transaction) { Pick(r, tx.Inputs).Index = uint(Pick(r, []int{1, 2, 1023, 1024})) }},
 		{"extra-size", func(tx *common.Transaction) { tx.Extra = r.Bytes(Pick(r, []int{0, 1, 63, 64, 65, 95, 96, 97, 256, 257})) }},
@@ -1178,6 +1184,7 @@ var c05VBuilders = []struct {
 	{c05BuildTransfer, 30}, {c05BuildMint, 5}, {c05BuildDeposit, 8}, {c05BuildWithdrawalSubmit, 6}, {c05BuildWithdrawalClaim, 7},
 	{c05BuildNodePledge, 6}, {c05BuildNodeAccept, 6}, {c05BuildNodeCancel, 4}, {c05BuildNodeRemove, 6}, {c05BuildCustodianUpdate, 2},
 	{c05BuildBoundary, 7}, {c05BuildAggregateMulti, 10}, {c05BuildBoundDeposit, 6},
+	{c05BuildRogueAggregate, 5}, {c05BuildCustodianExtra, 6},
 }
 
 func c05GenValidateCase(r *Rand, forceMut string, forceBuilder c05Builder) []string {
@@ -1257,12 +1264,44 @@ func c05GenValidateCase(r *Rand, forceMut string, forceBuilder c05Builder) []str
 			}
 			continue
 		}
+		// inputs already locked in the ledger: by this very payload hash, or by another one
+		ownLock := forceMut == "" && w.r.Chance(1, 10)
+		if ownLock {
+			h := signed.AsVersioned().PayloadHash()
+			for _, in := range signed.Inputs {
+				for _, g := range w.utxos {
+					if g.u.Hash == in.Hash && g.u.Index == in.Index {
+						g.u.LockHash = h
+					}
+				}
+			}
+		}
 		w.emitUtxos()
 		fork := 0
 		if w.r.Chance(1, 10) {
 			fork = 1
 		}
-		w.lines = append(w.lines, fmt.Sprintf("validate %d %d %s", fork, c05B2i(w.consistent), Hex(raw)))
+		vline := func(b []byte) string { return fmt.Sprintf("validate %d %d %s", fork, c05B2i(w.consistent), Hex(b)) }
+		if ownLock && w.r.Bool() {
+			// only a copy with other signature bytes is ever shown to the validator
+			if t := w.tamperedCopy(raw); t != nil {
+				w.lines = append(w.lines, vline(t))
+				return w.lines
+			}
+		}
+		w.lines = append(w.lines, vline(raw))
+		// validate -> lock (what the kernel does after a successful validation) -> validate copies
+		if forceMut == "" && w.r.Chance(1, 6) {
+			w.lines = append(w.lines, "lock "+Hex(raw))
+			for k := w.r.Range(1, 2); k > 0; k-- {
+				if t := w.tamperedCopy(raw); t != nil {
+					w.lines = append(w.lines, vline(t))
+				}
+			}
+			if w.r.Bool() {
+				w.lines = append(w.lines, vline(raw))
+			}
+		}
 		return w.lines
 	}
 }
